@@ -56,6 +56,29 @@ pub fn zeroizes<T: ZElem, N: ArrayLength, const R: usize>() {
     kani_cover!(n == 0 || !a[n - 1].is_zeroized() || true);
 }
 
+/// an element whose zeroized value depends on the element itself (`zeroize()` wipes the key and keeps the slot id, like `#[zeroize(skip)]`):
+/// "every element equals ITS zeroized value" - replicating one wiped element over the others is observable
+#[derive(Clone, Copy, PartialEq, Eq, Debug)]
+pub struct Keyed {
+    pub id: u8,
+    pub key: u16,
+}
+impl Zeroize for Keyed {
+    fn zeroize(&mut self) { self.key.zeroize(); }
+}
+pub fn zeroizes_keyed<T, N: ArrayLength, const R: usize>() {
+    let n = N::USIZE;
+    let mut a: GenericArray<Keyed, N> = GenericArray::generate(|_| Keyed { id: any_u8(), key: any_u16() });
+    let ids: GenericArray<u8, N> = GenericArray::generate(|i| a[i].id);
+    a.zeroize();
+    let i = if n > 0 { any_upto(n - 1) } else { 0 };
+    if n > 0 {
+        assert!(a[i].key == 0, "zeroize() skipped an element");
+        assert!(a[i].id == ids[i], "zeroize() left an element different from its own zeroized value (the part zeroize() keeps was overwritten)");
+    }
+    kani_cover!(n < 2 || (i == n - 1 && ids[i] != ids[0]));
+}
+
 pub trait DElem: ConstDefault + Default + Sized { fn same(&self, o: &Self) -> bool; }
 impl DElem for u8 { fn same(&self, o: &u8) -> bool { self == o } }
 impl DElem for u64 { fn same(&self, o: &u64) -> bool { self == o } }
@@ -129,6 +152,7 @@ pub mod q {
         u8_n0: u8, U0, 3; u8_n1: u8, U1, 4; u8_n2: u8, U2, 5; u8_n3: u8, U3, 6; u8_n4: u8, U4, 7; u8_n5: u8, U5, 8; u8_n6: u8, U6, 9; u8_n7: u8, U7, 10; u8_n8: u8, U8, 11;
         u64_n5: u64, U5, 8; b3_n3: [u8; 3], U3, 6; nested_n3: GenericArray<u8, U2>, U3, 6; zd_n0: ZD, U0, 3; zd_n5: ZD, U5, 8; zd_n6: ZD, U6, 9; flag_n1: Flagged, U1, 4; flag_n4: Flagged, U4, 7; flag_n5: Flagged, U5, 8;
     }
+    c19_lattice_z! { zeroizes_keyed; n0: (), U0, 3; n1: (), U1, 4; n2: (), U2, 5; n3: (), U3, 6; n5: (), U5, 8; n8: (), U8, 11; }
     c19_lattice! { const_defaults;
         zd_n0: ZD, U0, 3; zd_n1: ZD, U1, 4; zd_n2: ZD, U2, 5; zd_n3: ZD, U3, 6; zd_n4: ZD, U4, 7; zd_n5: ZD, U5, 8; zd_n6: ZD, U6, 9; zd_n7: ZD, U7, 10; zd_n8: ZD, U8, 11;
         u8_n5: u8, U5, 8; u64_n6: u64, U6, 9;
@@ -143,6 +167,7 @@ pub mod t {
         u8_n127: u8, U127, 130; u8_n128: u8, U128, 131; u8_n255: u8, U255, 258; u8_n256: u8, U256, 259;
         u64_n8: u64, U8, 11; b3_n7: [u8; 3], U7, 10; nested_n6: GenericArray<u8, U2>, U6, 9;
     }
+    c19_lattice_z! { zeroizes_keyed; n4: (), U4, 7; n6: (), U6, 9; n7: (), U7, 10; n16: (), U16, 19; n17: (), U17, 20; n33: (), U33, 36; n64: (), U64, 67; }
     c19_lattice! { const_defaults;
         zd_n9: ZD, U9, 12; zd_n10: ZD, U10, 13; zd_n11: ZD, U11, 14; zd_n12: ZD, U12, 15; zd_n13: ZD, U13, 16; zd_n14: ZD, U14, 17; zd_n15: ZD, U15, 18; zd_n16: ZD, U16, 19;
         zd_n17: ZD, U17, 20; zd_n21: ZD, U21, 24; zd_n26: ZD, U26, 29; zd_n31: ZD, U31, 34; zd_n32: ZD, U32, 35; zd_n33: ZD, U33, 36; zd_n42: ZD, U42, 45; zd_n63: ZD, U63, 66; zd_n64: ZD, U64, 67;
